@@ -100,7 +100,7 @@ class Ctx:
             raise Infra(f"driver timeout: {e}")
         if p.returncode != 0:
             raise Infra(f"driver exit {p.returncode}: {p.stderr[-500:]!r}")
-        outs = [json.loads(l) for l in p.stdout.decode().splitlines() if l.strip()]
+        outs = [json.loads(l) for l in p.stdout.decode().split("\n") if l.strip()]
         if len(outs) != len(lines):
             raise Infra(f"driver answered {len(outs)} lines for {len(lines)} requests; stderr={p.stderr[-300:]!r}")
         return outs
@@ -377,6 +377,10 @@ def main(argv=None) -> int:
                     found_input=False))
     except Infra as e:
         print(f"INFRA-ERROR property={prop} {e}")
+        return 2
+    except Exception as e:  # a crash of the machinery itself is never a verdict
+        tb = traceback.format_exc().strip().splitlines()
+        print(f"INFRA-ERROR property={prop} harness crashed: {type(e).__name__}: {e} @ {' | '.join(x.strip() for x in tb[-6:-1])[:600]}")
         return 2
 
     known = [k for k in load_known() if k.get("property") == prop and k.get("status", "open") == "open"]
